@@ -19,6 +19,9 @@ oracle (real code only, from the property text):
     another form), and with look_for omitted (the default) again and again in the same process.
 correspondence: `form`/`formdb` (GffModel.IterMore Input.run - the dispatch), `file`/`feats` (GffModel.Iter
 runFile/runFeatures), `peeklen` (items pulled by the peek), `inspect`.
+  * annotations whose lines END in white space that is data (empty / blank 10th column, a last value ending in a
+    blank, a blank or '; ' behind the last attribute): the path, gzip and string forms yield the same feature
+    sequence (extra columns included) and the same database.
 correspondence only (`directed`, `empty_create` - inputs outside the property's domain, never judged): inspect of
 start/end/stop on "." coordinates; inspect on files whose 10th/11th/12th line flips the dialect vote (inspect's
 window is checklines=10); inputs that yield no feature (empty / comments-only / FASTA-only file, a transform that
@@ -521,6 +524,111 @@ def directed(ctx, res, cmds, exp_out, tags):
             empty_create(ctx, res, only_exons, cl, trname, "emp", cmds, exp_out, tags)
 
 
+# ---- lines that END in white space which is data ------------------------------------------------------------------
+WS_TAILS = ["\t", "\t\t", "\t ", "\tx ", "\tcol10\t", " ", "  ", "; ", " ;  "]
+
+
+def ws_lines(r, n):
+    """the lines of a generated annotation in which some feature lines end in white space that is DATA: an empty (or
+    blank, or blank-terminated) 10th/11th column, a last attribute value ending in a blank (no trailing semicolon),
+    a blank / '; ' behind the last attribute.  At least one line gets an empty trailing column."""
+    ann = gen_ann(r, n)
+    flines = ann.feature_lines()
+    idx = sorted(set([r.randrange(len(flines))] + [i for i in range(len(flines)) if r.random() < 0.4]))
+    tails = {}
+    for j, i in enumerate(idx):
+        tails[i] = r.choice(WS_TAILS[:5]) if j == 0 else r.choice(WS_TAILS)
+    out = list(ann.header)
+    for i, l in enumerate(flines):
+        out += ann.noise.get(i, [])
+        out.append(l + tails.get(i, ""))
+    out += ann.noise.get(len(flines), [])
+    return out, ann.fmt
+
+
+def check_trailing_ws(ctx, res, lines, fmt, crlf, cmds, exp_out, tags, cls=None):
+    """the text forms (path, gzip path, string with from_string=True) of an annotation whose lines end in white space
+    that is data: same feature sequence (columns, attributes, EXTRA columns, dialect) and an equivalent database
+    (features with their extra columns, relations, dialect).  Judged against the path form only - what the parser
+    makes of such a line (e.g. the empty key behind a final '; ') is not C13's concern; the three forms read the same
+    characters, so they must agree.  An input the path form raises on is outside the domain (counted)."""
+    import gffutils
+    from gffutils import iterators
+    written = write_forms(ctx, "c13_ws.%s" % ("gtf" if fmt == "gtf" else "gff3"), lines, crlf)
+    nfeat = len([l for l in lines if l and not l.startswith("#")])
+    L = pyside.enc_list(lines)
+    base = {"scenario": "trailing_whitespace", "lines": list(lines), "fmt": fmt, "crlf": crlf}
+    for cl in (cls if cls is not None else sorted(set([0, 1, nfeat - 1, nfeat + 1, 10]) - {-1})):
+        ref = None
+        for form in ("path", "gz", "string"):
+            data, kw = written[form]
+            o = {"form": form}
+            try:
+                it = iterators.DataIterator(data, checklines=cl, **kw)
+                o["features"] = list(it)
+                o["dialect"] = it.dialect
+                o["seq"] = [(fobs(f), list(f.extra), f.dialect) for f in o["features"]]
+            except Exception as ex:
+                o["error"] = pyside.err_name(ex) + ": " + str(ex)[:200]
+            res.evaluations += 1
+            res.count("trailing_ws_form_" + form)
+            inp = dict(base, form=form, checklines=cl)
+            if form == "path":
+                ref = o
+                if "error" in o:
+                    res.count("trailing_ws_path_form_raised")
+            elif "error" in ref:
+                pass
+            elif "error" in o:
+                res.oracle_failures.append(("lines ending in white space: DataIterator over the %s form raised %s, the path "
+                                            "form does not" % (form, o["error"]), inp))
+            elif o["seq"] != ref["seq"] or o["dialect"] != ref["dialect"]:
+                k = next((i for i, (a, b) in enumerate(zip(o["seq"], ref["seq"])) if a != b), None)
+                res.oracle_failures.append((
+                    "lines ending in white space: the %s form yields a different feature sequence (columns, attributes, "
+                    "extra columns, dialect) than the path form" % form,
+                    dict(inp, n_path=len(ref["seq"]), n_this=len(o["seq"]),
+                         first_difference=None if k is None else {"path_form": ref["seq"][k], "this_form": o["seq"][k]},
+                         path_dialect=ref["dialect"], this_dialect=o["dialect"])))
+            if nfeat > 1:
+                res.nontriv(("trailing_ws", L, form, cl))
+            cmds.append("form %s %d none none %s" % (form, cl, L))
+            exp_out.append(enc_run(o))
+            tags.append(("DataIterator(%s form) on lines ending in white space" % form, repr((lines, cl, crlf))))
+    for cl in (0, 10):
+        ref = None
+        for form in ("path", "gz", "string"):
+            data, kw = written[form]
+            o = {"form": form}
+            try:
+                db = gffutils.create_db(data, ":memory:", force=True, merge_strategy="error", verbose=False, checklines=cl,
+                                        disable_infer_genes=True, disable_infer_transcripts=True, **kw)
+                o["proj"] = projection(db)
+                o["proj"]["extra"] = sorted((f.id, list(f.extra)) for f in db.all_features())
+            except Exception as ex:
+                o["error"] = pyside.err_name(ex)
+            res.evaluations += 1
+            res.count("trailing_ws_db_form_" + form)
+            inp = dict(base, form=form, checklines=cl, create_db=True)
+            if form == "path":
+                ref = o
+                continue
+            if o.get("error") != ref.get("error"):
+                res.oracle_failures.append((
+                    "lines ending in white space: create_db over the %s form behaves differently from the path form "
+                    "(%s vs %s)" % (form, o.get("error", "ok"), ref.get("error", "ok")), inp))
+                continue
+            if "error" in o:
+                continue
+            for key in ("features", "extra", "relations", "dialect"):
+                if o["proj"][key] != ref["proj"][key]:
+                    res.oracle_failures.append((
+                        "lines ending in white space: the database built from the %s form differs from the one built "
+                        "from the path form in its %s" % (form, key),
+                        dict(inp, path_form=ref["proj"][key], this_form=o["proj"][key])))
+                    break
+
+
 def check_annotation(ctx, res, ann, tag, r, cmds, exp_out, tags, heavy, crlf=False):
     """all checks for one annotation; appends to res and to the model command lists"""
     from gffutils import inspect as ginspect
@@ -761,6 +869,11 @@ def run(ctx):
             continue
         check_annotation(ctx, res, ann, "a%d" % (i % 3), r, cmds, exp_out, tags, heavy=ctx.thorough, crlf=(i % 3 == 2))
     directed(ctx, res, cmds, exp_out, tags)
+    # annotations whose lines end in white space that is data, in the three text forms
+    rw = ctx.rng("c13-trailing-ws")
+    for i in range(8 if not ctx.thorough else 60):
+        lines, fmt = ws_lines(rw, rw.choice([1, 2, 3, 5, 8, 11, 12]))
+        check_trailing_ws(ctx, res, lines, fmt, i % 4 == 3, cmds, exp_out, tags)
     out = ctx.model(cmds)
     if out is not None:
         for m, e, (comp, inp) in zip(out, exp_out, tags):
@@ -810,6 +923,16 @@ def observations(ctx, res):
 def replay(ctx, payload):
     res = common.Result("C13")
     inp = payload.get("input", {})
+    if inp.get("scenario") == "trailing_whitespace":
+        cmds, exp_out, tags = [], [], []
+        check_trailing_ws(ctx, res, inp["lines"], inp.get("fmt", "gff3"), bool(inp.get("crlf")), cmds, exp_out, tags)
+        print("replay: %s (form=%s checklines=%s)" % (payload.get("what"), inp.get("form"), inp.get("checklines")))
+        for l in inp["lines"]:
+            print("replay:     %r" % l)
+        for w, fp in res.oracle_failures[:3]:
+            print("replay:   now: %s (form=%s checklines=%s)" % (w, fp.get("form"), fp.get("checklines")))
+        print("replay: verdict: %d oracle failures on these lines (%s)" % (len(res.oracle_failures), common.repo_dir()))
+        return res
     if "annotation" not in inp:
         print("replay: no annotation in payload")
         return res
